@@ -9,7 +9,7 @@ use simcore::findings::KnownFindings;
 
 use crate::get;
 use crate::oracle::{Violation, judge};
-use crate::run::{Outcome, execute};
+use crate::run::Outcome;
 use crate::script::{RunSpec, generate};
 
 pub struct RunResult {
@@ -17,15 +17,131 @@ pub struct RunResult {
     pub violations: Vec<Violation>,
 }
 
-/// Execute one spec on a fresh thread under its hash seed and judge it.
-pub fn run_spec(spec: &RunSpec) -> Result<RunResult, String> {
+/// Execute one spec on a fresh thread under its hash seed and judge it (in this process).
+pub fn run_spec_inproc(spec: &RunSpec) -> Result<RunResult, String> {
+    run_spec_inproc_opts(spec, false)
+}
+
+pub fn run_spec_inproc_opts(spec: &RunSpec, capture_sites: bool) -> Result<RunResult, String> {
     let spec = spec.clone();
     let hash_seed = simcore::rng::derive(spec.seed, "hash");
     simcore::on_fresh_thread(hash_seed, 256, move || {
-        let out = execute(&spec);
+        let out = crate::run::execute_opts(&spec, capture_sites);
         let violations = judge(&spec, &out);
         RunResult { out, violations }
     })
+}
+
+/// What a forked child reports about its run.
+#[derive(serde::Serialize, serde::Deserialize, Clone, Debug, Default)]
+pub struct RunReport {
+    pub violations: Vec<(String, String)>,
+    pub decisions: Vec<u32>,
+    pub trace_digest: String,
+    pub final_state: String,
+    pub sim_ms: u64,
+    pub messages: u64,
+    pub picks: u64,
+    pub non_fifo_picks: u64,
+    pub yields: u64,
+    pub lock_events: u64,
+    pub max_queue: u64,
+    pub counters: BTreeMap<String, u64>,
+    pub server_requests: BTreeMap<String, u64>,
+    pub order_edges: Vec<String>,
+    pub stalled: bool,
+    pub panics: Vec<String>,
+    pub sample: Value,
+    pub error: Option<String>,
+}
+
+impl RunReport {
+    pub fn has(&self, class: &str) -> bool {
+        self.violations.iter().any(|(c, _)| c == class)
+    }
+}
+
+static WARMED: std::sync::atomic::AtomicBool = std::sync::atomic::AtomicBool::new(false);
+
+/// Initialise lazily-built process state once (deterministically) before any child is forked.
+pub fn warm_up() {
+    if WARMED.swap(true, std::sync::atomic::Ordering::SeqCst) {
+        return;
+    }
+    for (prop, seed) in [("C27", 0x5eed_0001u64), ("C24", 0x5eed_0002), ("C28", 0x5eed_0003), ("C30", 0x5eed_0004)] {
+        let spec = generate(prop, seed);
+        let _ = run_spec_inproc(&spec);
+    }
+}
+
+fn report_of(spec: &RunSpec, r: &RunResult) -> RunReport {
+    let mut counters: BTreeMap<String, u64> = r.out.counters.iter().map(|(k, v)| (k.to_string(), *v)).collect();
+    if !r.out.panics.is_empty() {
+        counters.insert("probe.run_with_server_panic".into(), 1);
+    }
+    RunReport {
+        violations: r.violations.iter().map(|v| (v.class.clone(), v.detail.clone())).collect(),
+        decisions: r.out.decisions.clone(),
+        trace_digest: r.out.trace_digest.clone(),
+        final_state: final_state_digest(&r.out),
+        sim_ms: r.out.sim_ms,
+        messages: r.out.history.len() as u64,
+        picks: r.out.picks,
+        non_fifo_picks: r.out.non_fifo_picks,
+        yields: r.out.yields,
+        lock_events: r.out.lock_events,
+        max_queue: r.out.max_queue as u64,
+        counters,
+        server_requests: r.out.server_request_methods.clone(),
+        order_edges: r.out.order_edges.iter().map(|(a, b)| format!("{a} -> {b}")).collect(),
+        stalled: crate::oracle::stalled(&r.out),
+        panics: r.out.panics.clone(),
+        sample: sample_of(spec, &r.out),
+        error: None,
+    }
+}
+
+/// Fast path used by batch workers: execute in this process. Results of a run may (rarely)
+/// depend on process state left by earlier runs (std's per-thread hash-key counter is shifted by
+/// lazily initialised statics), so nothing found this way is reported before it has been
+/// reproduced by the isolated, canonical execution (`run_spec`).
+pub fn run_spec_fast(spec: &RunSpec) -> RunReport {
+    warm_up();
+    match run_spec_inproc(spec) {
+        Ok(r) => report_of(spec, &r),
+        Err(e) => RunReport { error: Some(format!("run thread panicked: {e}")), ..Default::default() },
+    }
+}
+
+/// Execute one spec in a forked child (identical starting state for every run) and judge it.
+pub fn run_spec(spec: &RunSpec, verbose: bool) -> RunReport {
+    warm_up();
+    let prop = spec.prop.clone();
+    let res = simcore::isolate::run_in_child(
+        || {
+            let rep = match run_spec_inproc_opts(spec, verbose) {
+                Ok(r) => {
+                    if verbose {
+                        print_history(spec, &r.out);
+                    }
+                    report_of(spec, &r)
+                }
+                Err(e) => RunReport { error: Some(format!("run thread panicked: {e}")), ..Default::default() },
+            };
+            serde_json::to_string(&rep).unwrap_or_else(|e| format!("{{\"error\":\"serialise: {e}\"}}"))
+        },
+        180,
+    );
+    match res {
+        Ok(s) => serde_json::from_str::<RunReport>(&s).unwrap_or_else(|e| RunReport { error: Some(format!("bad child report: {e}")), ..Default::default() }),
+        Err(simcore::isolate::ChildError::Died(how)) => RunReport {
+            violations: vec![(format!("{prop}:server-process-died:{how}"), "the process running the server died (abort / stack overflow / fatal signal)".into())],
+            decisions: spec.decisions.clone().unwrap_or_default(),
+            trace_digest: format!("died:{how}"),
+            ..Default::default()
+        },
+        Err(e) => RunReport { error: Some(e.to_string()), ..Default::default() },
+    }
 }
 
 fn default_runs(prop: &str, tier: &str) -> u64 {
@@ -177,7 +293,7 @@ fn sample_of(spec: &RunSpec, out: &Outcome) -> Value {
     })
 }
 
-fn worker(prop: &str, base: u64, runs: u64, k: u64, n: u64, wall_budget_s: u64) -> Summary {
+fn worker(prop: &str, base: u64, runs: u64, k: u64, n: u64, wall_budget_s: u64, isolated: bool) -> Summary {
     let t0 = Instant::now();
     let mut s = Summary::default();
     let mut i = k;
@@ -187,51 +303,76 @@ fn worker(prop: &str, base: u64, runs: u64, k: u64, n: u64, wall_budget_s: u64) 
             break;
         }
         let seed = simcore::rng::run_seed(base, i);
-        let spec = generate(prop, seed);
-        match run_spec(&spec) {
-            Ok(r) => {
-                s.runs += 1;
-                s.sim_ms += r.out.sim_ms;
-                s.picks += r.out.picks;
-                s.nontrivial_picks += r.out.nontrivial_picks;
-                s.non_fifo_picks += r.out.non_fifo_picks;
-                s.yields += r.out.yields;
-                s.lock_events += r.out.lock_events;
-                s.max_queue = s.max_queue.max(r.out.max_queue as u64);
-                if r.out.nontrivial_picks > 0 {
-                    s.nontrivial_runs += 1;
-                    s.digests.insert(r.out.trace_digest.clone());
-                }
-                s.final_states.insert(final_state_digest(&r.out));
-                for (a, b) in &r.out.order_edges {
-                    s.order_edges.insert(format!("{a} -> {b}"));
-                }
-                for (k2, v) in &r.out.counters {
-                    *s.counters.entry(k2.to_string()).or_insert(0) += v;
-                }
-                if crate::oracle::stalled(&r.out) {
-                    *s.counters.entry("probe.run_stalled".into()).or_insert(0) += 1;
-                }
-                if !r.out.panics.is_empty() {
-                    *s.counters.entry("probe.run_with_server_panic".into()).or_insert(0) += 1;
-                }
-                for (m, v) in &r.out.server_request_methods {
-                    *s.server_requests.entry(m.clone()).or_insert(0) += v;
-                }
-                if s.samples.len() < 2 && i < 2 * n {
-                    s.samples.push(sample_of(&spec, &r.out));
-                }
-                for v in &r.violations {
-                    let ent = s.violations.entry(v.class.clone()).or_insert((0, Value::Null));
-                    ent.0 += 1;
-                    if ent.1.is_null() {
-                        let mut sp = spec.clone();
-                        sp.decisions = Some(r.out.decisions.clone());
-                        ent.1 = json!({"index": i, "detail": v.detail, "digest": r.out.trace_digest, "spec": sp});
+        let mut spec = generate(prop, seed);
+        let mut r = if isolated { run_spec(&spec, false) } else { run_spec_fast(&spec) };
+        if !isolated && r.violations.iter().any(|v| !s.violations.contains_key(&v.0)) {
+            // canonical (isolated) re-execution decides what is reported
+            let fast_classes: Vec<String> = r.violations.iter().map(|v| v.0.clone()).collect();
+            let mut canon = run_spec(&spec, false);
+            if canon.error.is_none() && !fast_classes.iter().all(|c| canon.has(c)) {
+                // same script under a few other scheduler streams, isolated
+                for salt in 1..=3u64 {
+                    let mut alt = spec.clone();
+                    alt.sched_salt = salt;
+                    let c2 = run_spec(&alt, false);
+                    if c2.error.is_none() && fast_classes.iter().any(|c| c2.has(c)) {
+                        canon = c2;
+                        spec.sched_salt = salt;
+                        break;
                     }
                 }
             }
-            Err(e) => s.harness_errors.push(format!("run {i} (seed {seed}): {e}")),
+            let lost = fast_classes.iter().filter(|c| !canon.has(c)).count() as u64;
+            if lost > 0 {
+                *s.counters.entry("harness.fast_path_candidates_not_reproduced_in_isolation".into()).or_insert(0) += lost;
+            }
+            *s.counters.entry("harness.isolated_confirmations".into()).or_insert(0) += 1;
+            let keep_counters = r.counters.clone();
+            r = canon;
+            if r.error.is_none() {
+                r.counters = keep_counters;
+            }
+        }
+        if let Some(e) = &r.error {
+            s.harness_errors.push(format!("run {i} (seed {seed}): {e}"));
+        } else {
+            s.runs += 1;
+            s.sim_ms += r.sim_ms;
+            s.picks += r.picks;
+            s.nontrivial_picks += r.picks;
+            s.non_fifo_picks += r.non_fifo_picks;
+            s.yields += r.yields;
+            s.lock_events += r.lock_events;
+            s.max_queue = s.max_queue.max(r.max_queue);
+            if r.picks > 0 {
+                s.nontrivial_runs += 1;
+                s.digests.insert(r.trace_digest.clone());
+            }
+            s.final_states.insert(r.final_state.clone());
+            for e in &r.order_edges {
+                s.order_edges.insert(e.clone());
+            }
+            for (k2, v) in &r.counters {
+                *s.counters.entry(k2.clone()).or_insert(0) += v;
+            }
+            if r.stalled {
+                *s.counters.entry("probe.run_stalled".into()).or_insert(0) += 1;
+            }
+            for (m, v) in &r.server_requests {
+                *s.server_requests.entry(m.clone()).or_insert(0) += v;
+            }
+            if s.samples.len() < 2 && i < 2 * n {
+                s.samples.push(r.sample.clone());
+            }
+            for (class, detail) in &r.violations {
+                let ent = s.violations.entry(class.clone()).or_insert((0, Value::Null));
+                ent.0 += 1;
+                if ent.1.is_null() {
+                    let mut sp = spec.clone();
+                    sp.decisions = Some(r.decisions.clone());
+                    ent.1 = json!({"index": i, "detail": detail, "digest": r.trace_digest, "spec": sp});
+                }
+            }
         }
         i += n;
     }
@@ -247,7 +388,8 @@ pub fn check(args: &[String]) -> i32 {
     if let Some(w) = get(args, "--worker") {
         let (k, n) = simcore::workers::parse_worker(&w).expect("k/n");
         crate::run::quiet_stderr();
-        let s = worker(&prop, base, runs, k as u64, n as u64, wall_budget);
+        let isolated = args.iter().any(|a| a == "--isolated");
+        let s = worker(&prop, base, runs, k as u64, n as u64, wall_budget, isolated);
         println!("{}", s.to_json());
         return 0;
     }
@@ -284,6 +426,7 @@ pub fn check(args: &[String]) -> i32 {
     let mut known_hits = 0;
     let mut harness_fail = false;
     let mut violation_report = Vec::new();
+    let min_t0 = Instant::now();
     for (class, (count, ex)) in &total.violations {
         let Some(spec_v) = ex.get("spec") else { continue };
         let spec: RunSpec = match serde_json::from_value(spec_v.clone()) {
@@ -297,7 +440,7 @@ pub fn check(args: &[String]) -> i32 {
         let detail = ex.get("detail").and_then(|d| d.as_str()).unwrap_or("");
         let is_known = known.matches(&prop, class);
         // known findings are not minimised again on every run (keeps quick runs quick)
-        let minimised = if is_known.is_some() { spec.clone() } else { minimise(&spec, class, 400) };
+        let minimised = if is_known.is_some() || min_t0.elapsed().as_secs() > 90 { spec.clone() } else { minimise(&spec, class, 400, 15) };
         let path = write_replay(&prop, class, &minimised, detail);
         // a violation must reproduce from its replay file in a fresh process, twice
         let ok = confirm_replay(&path, class) && confirm_replay(&path, class);
@@ -375,24 +518,31 @@ pub fn check(args: &[String]) -> i32 {
     if new_violations > 0 { 1 } else { 0 }
 }
 
-fn has_class(spec: &RunSpec, class: &str) -> Option<RunResult> {
-    match run_spec(spec) {
-        Ok(r) if r.violations.iter().any(|v| v.class == class) => Some(r),
-        _ => None,
-    }
+fn has_class(spec: &RunSpec, class: &str) -> Option<RunReport> {
+    let r = run_spec(spec, false);
+    if r.error.is_none() && r.has(class) { Some(r) } else { None }
+}
+
+/// Candidate evaluation for the minimiser: fast in-process execution (the final result is
+/// confirmed by the isolated execution before it is used).
+fn has_class_fast(spec: &RunSpec, class: &str) -> Option<RunReport> {
+    let r = run_spec_fast(spec);
+    if r.error.is_none() && r.has(class) { Some(r) } else { None }
 }
 
 /// Delta-debug the script (and then the decision list) while the same violation class persists.
-fn minimise(spec: &RunSpec, class: &str, budget: usize) -> RunSpec {
+fn minimise(spec: &RunSpec, class: &str, budget: usize, wall_s: u64) -> RunSpec {
+    let t0 = Instant::now();
     let mut best = spec.clone();
     let mut evals = 0usize;
+    let budget = budget; // evaluations; additionally bounded by wall_s seconds
     // candidate evaluation: original decisions padded with defaults, then a few fresh streams
     let mut try_script = |script: &[crate::script::Step], best: &RunSpec, evals: &mut usize| -> Option<RunSpec> {
         let mut cand = best.clone();
         cand.script = script.to_vec();
         *evals += 1;
-        if let Some(r) = has_class(&cand, class) {
-            cand.decisions = Some(r.out.decisions.clone());
+        if let Some(r) = has_class_fast(&cand, class) {
+            cand.decisions = Some(r.decisions.clone());
             return Some(cand);
         }
         for salt in 1..=4u64 {
@@ -400,8 +550,8 @@ fn minimise(spec: &RunSpec, class: &str, budget: usize) -> RunSpec {
             c2.decisions = None;
             c2.sched_salt = salt;
             *evals += 1;
-            if let Some(r) = has_class(&c2, class) {
-                c2.decisions = Some(r.out.decisions.clone());
+            if let Some(r) = has_class_fast(&c2, class) {
+                c2.decisions = Some(r.decisions.clone());
                 return Some(c2);
             }
         }
@@ -409,12 +559,12 @@ fn minimise(spec: &RunSpec, class: &str, budget: usize) -> RunSpec {
     };
     // ddmin over steps
     let mut n = 2usize;
-    while best.script.len() >= 2 && evals < budget {
+    while best.script.len() >= 2 && evals < budget && t0.elapsed().as_secs() < wall_s {
         let len = best.script.len();
         let chunk = len.div_ceil(n);
         let mut reduced = false;
         let mut i = 0;
-        while i < len && evals < budget {
+        while i < len && evals < budget && t0.elapsed().as_secs() < wall_s {
             let end = (i + chunk).min(len);
             let mut cand: Vec<_> = best.script[..i].to_vec();
             cand.extend_from_slice(&best.script[end..]);
@@ -435,7 +585,7 @@ fn minimise(spec: &RunSpec, class: &str, budget: usize) -> RunSpec {
     }
     // simplify gaps to Zero where possible
     for i in 0..best.script.len() {
-        if evals >= budget {
+        if evals >= budget || t0.elapsed().as_secs() >= wall_s {
             break;
         }
         if best.script[i].gap != crate::script::Gap::Zero {
@@ -454,7 +604,7 @@ fn minimise(spec: &RunSpec, class: &str, budget: usize) -> RunSpec {
             let mut cand = best.clone();
             cand.decisions = Some(dec[..mid].to_vec());
             evals += 1;
-            if has_class(&cand, class).is_some() {
+            if has_class_fast(&cand, class).is_some() {
                 hi = mid;
             } else {
                 lo = mid + 1;
@@ -462,11 +612,18 @@ fn minimise(spec: &RunSpec, class: &str, budget: usize) -> RunSpec {
         }
         let mut cand = best.clone();
         cand.decisions = Some(dec[..hi].to_vec());
-        if has_class(&cand, class).is_some() {
+        if has_class_fast(&cand, class).is_some() {
             best = cand;
         }
     }
-    best
+    // the isolated execution is canonical: keep the minimised spec only if it reproduces there
+    match has_class(&best, class) {
+        Some(r) => {
+            best.decisions = Some(r.decisions.clone());
+            best
+        }
+        None => spec.clone(),
+    }
 }
 
 fn write_replay(prop: &str, class: &str, spec: &RunSpec, detail: &str) -> String {
@@ -474,7 +631,7 @@ fn write_replay(prop: &str, class: &str, spec: &RunSpec, detail: &str) -> String
     let _ = std::fs::create_dir_all(&dir);
     let path = format!("{dir}/{}.json", simcore::digest_str(class));
     // expected digest of the replay
-    let digest = run_spec(spec).map(|r| r.out.trace_digest).unwrap_or_default();
+    let digest = run_spec(spec, false).trace_digest;
     let v = json!({
         "property": prop,
         "engine": "E-LS/1",
@@ -512,32 +669,28 @@ pub fn replay_cmd(args: &[String]) -> i32 {
     if quiet {
         crate::run::quiet_stderr();
     }
-    match run_spec(&spec) {
-        Ok(r) => {
-            let same_class = r.violations.iter().any(|x| x.class == class);
-            let same_digest = r.out.trace_digest == want_digest;
-            if !quiet {
-                print_history(&spec, &r.out);
-                for x in &r.violations {
-                    println!("violation: {} -- {}", x.class, x.detail);
-                }
-            }
-            if same_class && same_digest {
-                println!("REPLAY-OK class={class} digest={}", r.out.trace_digest);
-                println!("VIOLATION property={prop} replay={file}");
-                1
-            } else if same_class {
-                println!("REPLAY-DIVERGED class={class} reproduced but trace digest {} != recorded {}", r.out.trace_digest, want_digest);
-                2
-            } else {
-                println!("REPLAY-CLEAN recorded class {class} not reproduced (classes now: {:?})", r.violations.iter().map(|x| &x.class).collect::<Vec<_>>());
-                0
-            }
+    let r = run_spec(&spec, !quiet);
+    if let Some(e) = &r.error {
+        println!("HARNESS-ERROR {e}");
+        return 2;
+    }
+    let same_class = r.has(&class);
+    let same_digest = r.trace_digest == want_digest;
+    if !quiet {
+        for (c, d) in &r.violations {
+            println!("violation: {c} -- {d}");
         }
-        Err(e) => {
-            println!("HARNESS-ERROR {e}");
-            2
-        }
+    }
+    if same_class && same_digest {
+        println!("REPLAY-OK class={class} digest={}", r.trace_digest);
+        println!("VIOLATION property={prop} replay={file}");
+        1
+    } else if same_class {
+        println!("REPLAY-DIVERGED class={class} reproduced but trace digest {} != recorded {}", r.trace_digest, want_digest);
+        2
+    } else {
+        println!("REPLAY-CLEAN recorded class {class} not reproduced (classes now: {:?})", r.violations.iter().map(|x| &x.0).collect::<Vec<_>>());
+        0
     }
 }
 
@@ -559,6 +712,7 @@ pub fn print_history(spec: &RunSpec, out: &Outcome) {
     println!("--- picks={} with_choice={} non_fifo={} yields={} lock_events={} decisions={}", out.picks, out.nontrivial_picks, out.non_fifo_picks, out.yields, out.lock_events, out.decisions.len());
     println!("--- order edges: {:?}", out.order_edges);
     println!("--- reacquire: {:?}", out.reacquire);
+    println!("--- reacquire sites: {:?}", out.reacquire_sites);
     println!("--- wait graph: {:?}", out.wait_graph);
     println!("--- panics: {:?}", out.panics);
     println!("--- counters: {:?}", out.counters);
@@ -569,24 +723,24 @@ pub fn one(args: &[String]) -> i32 {
     let prop = get(args, "--prop").expect("--prop");
     let base = simcore::verif_seed();
     let index: u64 = get(args, "--index").and_then(|s| s.parse().ok()).unwrap_or(0);
-    let seed = simcore::rng::run_seed(base, index);
-    let spec = generate(&prop, seed);
-    match run_spec(&spec) {
-        Ok(r) => {
-            if args.iter().any(|a| a == "-v") {
-                print_history(&spec, &r.out);
-            }
-            for x in &r.violations {
-                println!("violation: {} -- {}", x.class, x.detail);
-            }
-            println!("digest={} sim_ms={} msgs={}", r.out.trace_digest, r.out.sim_ms, r.out.history.len());
-            0
-        }
-        Err(e) => {
-            println!("HARNESS-ERROR {e}");
-            2
+    // --warm a,b,c: execute these run indices first in the same process (order-dependence hunts)
+    if let Some(w) = get(args, "--warm") {
+        for i in w.split(',').filter_map(|x| x.parse::<u64>().ok()) {
+            let _ = run_spec_inproc(&generate(&prop, simcore::rng::run_seed(base, i)));
         }
     }
+    let seed = simcore::rng::run_seed(base, index);
+    let spec = generate(&prop, seed);
+    let r = run_spec(&spec, args.iter().any(|a| a == "-v"));
+    if let Some(e) = &r.error {
+        println!("HARNESS-ERROR {e}");
+        return 2;
+    }
+    for (c, d) in &r.violations {
+        println!("violation: {c} -- {d}");
+    }
+    println!("digest={} sim_ms={} msgs={}", r.trace_digest, r.sim_ms, r.messages);
+    0
 }
 
 /// Print `index digest classes` per run: two invocations (different processes, orders, worker
@@ -604,9 +758,10 @@ pub fn digests(args: &[String]) -> i32 {
     let mut lines = Vec::new();
     for i in idx {
         let spec = generate(&prop, simcore::rng::run_seed(base, i));
-        match run_spec(&spec) {
-            Ok(r) => lines.push((i, format!("{i} {} {:?}", r.out.trace_digest, r.violations.iter().map(|v| v.class.clone()).collect::<Vec<_>>()))),
-            Err(e) => lines.push((i, format!("{i} ERROR {e}"))),
+        let r = run_spec(&spec, false);
+        match &r.error {
+            None => lines.push((i, format!("{i} {} {:?}", r.trace_digest, r.violations.iter().map(|v| v.0.clone()).collect::<Vec<_>>()))),
+            Some(e) => lines.push((i, format!("{i} ERROR {e}"))),
         }
     }
     lines.sort();
